@@ -47,12 +47,15 @@ CHECKS = {
         "timeout": {"quick": 1200, "thorough": 14000},
     },
     "C03": {
-        "scenarios": [("C03-close", "vsim")],
+        "scenarios": [("C03-close", "vsim"), ("C03-stuck", "vsim")],
         "rule": "closer (client or server) writes a generated size sequence and closes after 0..2 s; peer reads to the end; TCP: "
                 "chunk schedule x bounded pipe x slow reader; UDP: positional faults on the datagrams in flight at close time (drop/"
                 "delay of one of the last data segments, of a middle segment so that the close overtakes it, drop/delay/duplicate of "
                 "the close request) or random loss; the Read-before-wait hook parks the reader 0/2/5 virtual ms; non-trivial = the "
-                "peer observed EOF or an error; distinct = hash of (transport, closer, fault class, rule hits, write shape, outcome)",
+                "peer observed EOF or an error; plus the stuck-writer family (TCP): small writes until the writer's Write blocks behind "
+                "a peer that is not reading (queue, channel and an 1-16 KiB pipe full), Close at that moment, consumer starting 3-8 s "
+                "later; everything written before Close was called must be read before a clean EOF; "
+                "distinct = hash of (transport, closer, fault class, rule hits, write shape, outcome)",
         "technique": "runtime monitor: 'EOF implies everything written was read' oracle at the application boundary, enumerated faults at "
                      "close time on a simulated network in virtual time, hook-point parking of the reader",
         "text": "Every execution in which the peer sees io.EOF is checked for having read all successfully written bytes; an error "
